@@ -45,7 +45,8 @@ func init() {
 			// workload B
 			"b_histories", "b_determinism_control_ok", "b_feed_control_ok", "b_restore_points", "b_restores_from_dpos_file", "b_restores_by_full_replay", "b_killed_processes",
 			"b_cuts_compared_at_restart", "b_cuts_compared_after_restart", "b_blocks_fed_after_restart", "b_pool_txs_restored_from_checkpoint",
-			"b_control_pending_votes_withdraw_at_save_height", "b_control_pending_cr_withdraw_at_save_height", "b_control_pending_v2_reward_withdraw_at_save_height", "b_control_nonempty_pool_at_save_height"},
+			"b_control_pending_votes_withdraw_at_save_height", "b_control_pending_cr_withdraw_at_save_height", "b_control_pending_v2_reward_withdraw_at_save_height", "b_control_nonempty_pool_at_save_height",
+			"b_restore_points_with_next_crc_differing"},
 		Assumptions: []string{
 			"platform-int fields (DutyIndex) hold values in [0,2^31) — they are written as uint32",
 			"back pointers to the live Arbiters/Committee/TxPool objects, locks and callbacks are not checkpoint content",
